@@ -279,14 +279,19 @@ where
         run.nontrivial();
     }
     let limit = if rng.bool() { 8 } else { n };
-    let path = rng.below(3);
-    run.count(["range_cursor_vec", "range_slice", "range_encoder_decoder"][path as usize], 1);
+    let path = rng.below(4);
+    run.count(["range_cursor_vec", "range_slice", "range_encoder_decoder", "range_reversed"][path as usize], 1);
     let mut enc2 = enc.clone();
     let words: Vec<M::W> = enc.into_compressed().unwrap_infallible();
     let total = words.len();
     macro_rules! go {
-        ($dec:expr, $name:expr) => {{
+        ($dec:expr, $name:expr) => {
+            go!($dec, $name, |p: usize| p)
+        };
+        ($dec:expr, $name:expr, $map:expr) => {{
             let mut dec = $dec;
+            #[allow(clippy::redundant_closure_call)]
+            let mappos = $map;
             let mut cur: Option<usize> = Some(0);
             // prefer snapshots taken while inverted
             let mut order = order.clone();
@@ -305,6 +310,7 @@ where
                         return;
                     }
                     run.count("refused_seeks", 1);
+                    let _ = &mappos;
                     // a refused seek must not change what comes next
                     if let Some(c) = cur {
                         if c < n {
@@ -316,6 +322,7 @@ where
                     }
                 }
                 let (snap, inv) = snaps[si];
+                let snap = (mappos(snap.0), snap.1);
                 if dec.seek(snap).is_err() {
                     run.violation("seek-refused", "C07/valid-seek-refused", format!("{}: seek to recorded snapshot {si} (pos {}) refused, total words {total}", $name, snap.0));
                     return;
@@ -347,7 +354,14 @@ where
     match path {
         0 => go!(RangeDecoder::<M::W, S, _>::from_compressed(words.clone()).unwrap_infallible(), "RangeDecoder over Cursor<Vec>"),
         1 => go!(RangeDecoder::<M::W, S, _>::from_compressed(&words[..]).unwrap_infallible(), "RangeDecoder over &[W]"),
-        _ => go!(enc2.decoder(), "RangeEncoder::decoder()"),
+        2 => go!(enc2.decoder(), "RangeEncoder::decoder()"),
+        _ => {
+            // reversed compressed data read through Reverse<Cursor>: positions are mirrored
+            let mut rv = words.clone();
+            rv.reverse();
+            let backend = constriction::backends::Reverse(constriction::backends::Cursor::new_at_write_end(rv));
+            go!(RangeDecoder::<M::W, S, _>::with_backend(backend).unwrap_infallible(), "RangeDecoder over Reverse<Cursor> (reversed data)", |p: usize| total - p)
+        }
     }
     run.count("range_symbols", n as u64);
     run.describe(|| format!("RANGE W={} S={} path={path} {} ; {} snapshots ({} while inverted)", <M::W as Num>::NAME, S::NAME, describe_msg(&msg), snaps.len(), inv_snaps));
